@@ -114,14 +114,6 @@ theorem lat_finish (p : ProxyS) (m : MuxL) (e : ESock) (se : Bool) : Lat 0 m (p.
   · split <;> exact lat_mwNowrite p.mw m
   · exact Lat.refl m
 
-theorem lat_cleanup (p : ProxyS) (m : MuxL) (e : ESock) (se : Bool) : Lat 0 m (p.cleanup m e se).2.1 := by
-  unfold ProxyS.cleanup
-  by_cases hf : p.sockFirst = true
-  · simp only [hf, ↓reduceIte]
-    exact (lat_dropMux p.dropSock m).trans (lat_finish _ _ e se)
-  · simp only [hf, Bool.false_eq_true, ↓reduceIte]
-    exact (lat_dropMux p m).trans (lat_finish _ _ e se)
-
 theorem lat_preSelect (p : ProxyS) (m : MuxL) : Lat 0 m (p.preSelectFlags m).2 := by
   unfold ProxyS.preSelectFlags
   by_cases hf : p.sockFirst = true
@@ -136,6 +128,14 @@ theorem lat_preSelect (p : ProxyS) (m : MuxL) : Lat 0 m (p.preSelectFlags m).2 :
 
 /-- One whole `Proxy.callback`: `too_full` unchanged, no TCP_DATA queued while `too_full`, at most
 one cut (2048 bytes) of stream payload added to `fullness`. -/
+theorem lat_cleanup (p : ProxyS) (m : MuxL) (e : ESock) (se : Bool) : Lat 0 m (p.cleanup m e se).2.1 := by
+  unfold ProxyS.cleanup
+  by_cases hf : p.sockFirst = true
+  · simp only [hf, ↓reduceIte]
+    exact ((lat_dropMux p.dropSock m).trans (lat_preSelect _ _)).trans (lat_finish _ _ e se)
+  · simp only [hf, Bool.false_eq_true, ↓reduceIte]
+    exact ((lat_dropMux p m).trans (lat_preSelect _ _)).trans (lat_finish _ _ e se)
+
 theorem lat_callback (p : ProxyS) (m : MuxL) (e : ESock) (io : CbIo) (p' : ProxyS) (m' : MuxL) (e' : ESock)
     (h : p.callback m e io = .ok p' m' e') : Lat Generated.MUX_CUT m m' := by
   obtain ⟨psw, pmw, pok, sf⟩ := p
